@@ -82,7 +82,8 @@ func newRegRun(opt405 bool, cache int) *regRun {
 	return e
 }
 
-// parseNew reads `new <405?> [<cache>]`.
+// parseNew reads `new <opts> [<cache>]`; <opts> is a bit mask: 1 HandleMethodNotAllowed, 2 StrictLastSlash
+// (the strict bit is applied by regApplyOpts).
 func parseNew(f []string) (opt405 bool, cache int, ok bool) {
 	if len(f) < 2 || len(f) > 3 || f[0] != "new" {
 		return false, 0, false
@@ -94,7 +95,7 @@ func parseNew(f []string) (opt405 bool, cache int, ok bool) {
 		}
 		cache = c[0]
 	}
-	return f[1] == "1", cache, true
+	return regOptMask(f[1])&1 != 0, cache, true
 }
 
 // mw builds a middleware that records its tag, calls Next and records its return.
@@ -656,7 +657,7 @@ func (regEngine) Run(ops []string) (ans []string, oracle []string) {
 	for _, op := range ops {
 		if o, c, ok := parseNew(strings.Fields(op)); ok {
 			oracle = append(oracle, e.oracle...)
-			e = regCarry(e, newRegRun(o, c))
+			e = regApplyOpts(regCarry(e, newRegRun(o, c)), strings.Fields(op))
 			ans = append(ans, "ok")
 			continue
 		}
@@ -917,6 +918,22 @@ func (regEngine) Corpus() []Case {
 			"probe PATCH " + h("/b/u127/7"), "probe DELETE " + h("/b/u127/7"), "probe GET " + h("/b/u127"), "routes",
 			"new 1", "resource 1000 same " + h("/c/") + " " + h("u127") + " 127 120 -", "run", "info 1003", "info 1005",
 			"serve 1004 GET", "probe PUT " + h("/c/u127/7"), "probe DELETE " + h("/c/u127/7"), "probe POST " + h("/c/u127/7")}},
+		// StrictLastSlash routers (option bit 2): the index route ("" or "/") of a group lives at prefix + "/", at every
+		// depth, and leaves a route registered outside the group on the group's own path alone
+		{Ops: []string{"new 2", "route 1 verb - GET " + h("/api") + " - e", "route 2 verb - GET " + h("/api/v1") + " - e",
+			"group " + h("/api") + " 2000", "route 3 verb - GET " + h("/") + " - e", "route 4 verb - GET " + h("/users") + " - e",
+			"group " + h("/v1") + " 2001", "route 5 verb - GET " + h("") + " - e", "route 6 verb - GET " + h("/users/") + " - e", "end", "end",
+			"run", "info 1", "info 2", "info 3", "info 4", "info 5", "info 6", "probe GET " + h("/api"), "probe GET " + h("/api/"),
+			"probe GET " + h("/api/users"), "probe GET " + h("/api/users/"), "probe GET " + h("/api/v1"), "probe GET " + h("/api/v1/"),
+			"probe GET " + h("/api/v1/users"), "probe GET " + h("/api/v1/users/"), "routes"}},
+		// the group first, the outer route afterwards; prefix with a trailing slash; a resource inside a strict group
+		{Ops: []string{"new 3", "group " + h("/a/") + " -", "route 1 add - GET,POST " + h("/") + " - -", "route 2 verb - GET " + h("b") + " - e", "end",
+			"group " + h("/a") + " 2000", "route 3 add - GET " + h("") + " - -", "resource 1000 ptr " + h("/") + " " + h("u127") + " 127 9 -", "end",
+			"route 4 verb - GET " + h("/a") + " - e", "route 5 verb - POST " + h("/a/") + " - e", "run", "info 1", "info 2", "info 3", "info 4",
+			"info 5", "info 1000", "info 1001", "info 1003", "probe GET " + h("/a"), "probe GET " + h("/a/"), "probe POST " + h("/a"),
+			"probe POST " + h("/a/"), "probe GET " + h("/a//"), "probe GET " + h("/a//b"), "probe GET " + h("/a/b"), "probe PUT " + h("/a/"),
+			"probe GET " + h("/a/u127"), "probe GET " + h("/a/u127/"), "probe GET " + h("/a/u127/7"), "probe GET " + h("/a/u127/7/"),
+			"probe GET " + h("/a/u127/create/"), "probe POST " + h("/a/u127/"), "routes", "named"}},
 	}
 }
 
@@ -1306,6 +1323,9 @@ func (g *regGen) probes() {
 }
 
 func (regEngine) Gen(r *Rand, tier string) Case {
+	if r.Chance(1, 8) {
+		return regStrictGen(r)
+	}
 	g := &regGen{r: r, nextTag: 2000, nextRid: 900, bufLen: map[int]int{}, usedRes: map[string]bool{}, thor: tier == "thorough",
 		stored: map[string]bool{}}
 	tag := "plain"
@@ -1356,6 +1376,198 @@ func (regEngine) Gen(r *Rand, tier string) Case {
 	}
 	if g.nLike > 0 {
 		tag += "+likeprefix"
+	}
+	return Case{Ops: g.ops, Tag: tag}
+}
+
+/**************** StrictLastSlash routers ****************/
+
+// regOptMask reads the option mask of `new` (not a number = 0).
+func regOptMask(s string) int {
+	m, ok := parseInts(s)
+	if !ok || len(m) != 1 {
+		return 0
+	}
+	return m[0]
+}
+
+// regApplyOpts applies the option bits of `new` that newRegRun does not know: 2 = StrictLastSlash. The router is
+// new (no route yet), so WithOptions is what New(options...) does.
+func regApplyOpts(e *regRun, f []string) *regRun {
+	if len(f) >= 2 && regOptMask(f[1])&2 != 0 {
+		e.r.WithOptions(rux.StrictLastSlash)
+	}
+	return e
+}
+
+// regStrictFmt: formatPath of a StrictLastSlash router on white-space-free strings (nothing is cut at the end).
+// Only used by the generator to choose probe paths; what a route's path has to be is the model's answer.
+func regStrictFmt(p string) string {
+	if p == "" || p == "/" {
+		return "/"
+	}
+	if p[0] != '/' {
+		return "/" + p
+	}
+	if p[1] == '/' {
+		return "/" + strings.TrimLeft(p, "/")
+	}
+	return p
+}
+
+type regStrictG struct {
+	r       *Rand
+	ops     []string
+	nextID  int
+	nextTag int
+	pfx     string   // the prefix in effect as a strict router concatenates it
+	ids     []int    // route ids, for `info`
+	paths   []string // where the routes are expected: probe targets
+	methods []string
+	nRes    int
+}
+
+func (g *regStrictG) arg() string {
+	if g.r.Chance(1, 2) {
+		return "-"
+	}
+	g.nextTag++
+	return fmt.Sprint(g.nextTag)
+}
+
+// route: inside a group mostly the index route ("" or "/"), else short paths over a two-letter alphabet, with
+// and without a trailing slash, so that group routes and outer routes meet on the same paths.
+func (g *regStrictG) route() {
+	g.nextID++
+	id := g.nextID
+	var path string
+	switch x := g.r.Intn(20); {
+	case g.pfx != "" && x < 8:
+		path = g.r.Pick([]string{"", "/"})
+	case x < 16:
+		path = g.r.Pick([]string{"/a", "/a/", "/b", "/b/", "a", "b/", "/a/b", "/a/b/", "/a/a/", "/b/a"})
+	case x < 18 && strings.Trim(g.pfx, "/") != "":
+		path = g.r.Pick([]string{"/{id}", "/{id}/", "{id}/"})
+	default:
+		path = g.r.Pick([]string{"", "/", "/a", "/a/"})
+	}
+	m := g.r.Pick([]string{"GET", "GET", "GET", "GET", "POST"})
+	kind, post := "verb", "e"
+	if g.r.Chance(1, 3) {
+		kind, post = "add", "-"
+	} else if g.r.Chance(1, 3) {
+		g.nextTag++
+		post = fmt.Sprint(g.nextTag)
+	}
+	g.ops = append(g.ops, fmt.Sprintf("route %d %s - %s %s - %s", id, kind, m, hx(path), post))
+	g.ids = append(g.ids, id)
+	at := regStrictFmt("/" + strings.TrimLeft(path, "/"))
+	if g.pfx != "" {
+		at = regStrictFmt(g.pfx + at)
+	}
+	g.paths = append(g.paths, at)
+	g.methods = append(g.methods, m)
+}
+
+func (g *regStrictG) body(depth int) {
+	n := g.r.Range(1, 4)
+	if depth == 0 {
+		n = g.r.Range(3, 6)
+	}
+	for i := 0; i < n; i++ {
+		x := g.r.Intn(100)
+		switch {
+		case x < 45 || depth >= 3:
+			if len(g.ids) < 14 {
+				g.route()
+			}
+		case x < 85:
+			pfx := g.r.Pick([]string{"/a", "/a", "/b", "/b", "/a/", "b/", "a", "/a/b", "/", ""})
+			kw := "group"
+			if g.r.Chance(1, 8) {
+				kw = "controller"
+			}
+			g.ops = append(g.ops, fmt.Sprintf("%s %s %s", kw, hx(pfx), g.arg()))
+			saved := g.pfx
+			g.pfx += regStrictFmt(pfx)
+			if g.r.Chance(2, 3) && len(g.ids) < 14 {
+				g.route() // the first statement of a group is mostly a route (often its index route)
+			}
+			g.body(depth + 1)
+			g.pfx = saved
+			g.ops = append(g.ops, "end")
+		case x < 92:
+			g.ops = append(g.ops, "use "+g.arg())
+		default:
+			if g.nRes == 0 && strings.Trim(g.pfx, "/") != "" {
+				// Resource opens a group of its own: its Index/Store routes are index routes
+				g.nRes++
+				mask := g.r.PickInt([]int{127, 127, 9, 5, 13})
+				base := g.r.Pick([]string{"/", "/", "/v/"})
+				res := fmt.Sprintf("r%03d", mask)
+				g.ops = append(g.ops, fmt.Sprintf("resource 1000 ptr %s %s %d 0 %s", hx(base), hx(res), mask, g.arg()))
+				G := g.pfx + regStrictFmt(base+res)
+				for a, rel := range []string{"/", "/create/", "/", "/{id}/", "/{id}/edit/", "/{id}/", "/{id}/"} {
+					if mask&(1<<uint(a)) != 0 {
+						g.ids = append(g.ids, 1000+a)
+						g.paths = append(g.paths, regStrictFmt(G+rel))
+						g.methods = append(g.methods, []string{"GET", "GET", "POST", "GET", "GET", "PUT", "DELETE"}[a])
+					}
+				}
+			}
+		}
+	}
+}
+
+// regStrictGen: registration programs on routers built with StrictLastSlash (a trailing slash is significant):
+// index routes of nested groups next to outer routes on the groups' own paths. Every route is read back (`info`)
+// and every expected path is requested as it is and with the trailing slash toggled (`probe`: the model resolves
+// the request in its own table, so routes that land on one path are compared too).
+func regStrictGen(r *Rand) Case {
+	g := &regStrictG{r: r, nextTag: 2000}
+	opts := 2 + r.Intn(2)
+	tag := "strict"
+	caching := r.Chance(1, 5)
+	if caching {
+		g.ops = append(g.ops, fmt.Sprintf("new %d %d", opts, r.PickInt([]int{1, 2, 1000})))
+		tag = "strict+caching"
+	} else {
+		g.ops = append(g.ops, fmt.Sprintf("new %d", opts))
+	}
+	g.body(0)
+	g.ops = append(g.ops, "run")
+	for _, id := range g.ids {
+		g.ops = append(g.ops, fmt.Sprintf("info %d", id))
+	}
+	seen := map[string]bool{}
+	probe := func(m, p string) {
+		p = strings.ReplaceAll(p, "{id}", "7")
+		if strings.HasPrefix(p, "//") || seen[m+" "+p] {
+			return
+		}
+		seen[m+" "+p] = true
+		k := 1
+		if caching && r.Bool() {
+			k = 2
+		}
+		for ; k > 0; k-- {
+			g.ops = append(g.ops, fmt.Sprintf("probe %s %s", m, hx(p)))
+		}
+	}
+	for i, p := range g.paths {
+		other := p + "/"
+		if strings.HasSuffix(p, "/") && p != "/" {
+			other = strings.TrimSuffix(p, "/")
+		}
+		probe(g.methods[i], p)
+		probe(g.methods[i], other)
+		if r.Chance(1, 4) {
+			probe(r.Pick([]string{"GET", "POST", "HEAD", "PUT"}), r.Pick([]string{p, other}))
+		}
+	}
+	if g.nRes > 0 {
+		g.ops = append(g.ops, "routes")
+		tag += "+res"
 	}
 	return Case{Ops: g.ops, Tag: tag}
 }
